@@ -418,6 +418,37 @@ func directedPrograms() []directed {
 		add("issue-"+tag, cat(p(v), []byte{0xe0, 0x00}))
 		add("call-value-"+tag, cat(p(big.NewInt(0)), p(big.NewInt(0)), p(big.NewInt(0)), p(big.NewInt(0)), p(v), pushAddrB(bWriter), []byte{0x5a, 0xf1, 0x00}))
 	}
+	// offset + length arithmetic: pairs whose sum wraps 64 (or 256) bits, for every operand pair that is
+	// added before it is bounds-checked. Return data is made non-empty first (identity precompile).
+	u64 := new(big.Int).SetUint64(^uint64(0))
+	retData := cat(p(big.NewInt(32)), p(big.NewInt(0)), p(big.NewInt(32)), p(big.NewInt(0)), p(big.NewInt(0)), p(big.NewInt(4)), []byte{0x5a, 0xf1, 0x50})
+	for _, pr := range [][2]*big.Int{
+		{u64, big.NewInt(1)}, {u64, big.NewInt(2)}, {new(big.Int).Sub(u64, big.NewInt(15)), big.NewInt(32)}, {new(big.Int).Sub(u64, big.NewInt(31)), big.NewInt(32)},
+		{new(big.Int).SetUint64(1 << 63), new(big.Int).SetUint64(1 << 63)}, {u64, u64}, {max256, big.NewInt(1)}, {max256, big.NewInt(2)}, {max256, max256},
+		{big.NewInt(1), u64}, {big.NewInt(31), big.NewInt(2)}, {big.NewInt(32), big.NewInt(1)},
+	} {
+		off, ln := pr[0], pr[1]
+		tag := fmt.Sprintf("%d-bit+%d-bit", off.BitLen(), ln.BitLen())
+		if off.BitLen() <= 8 {
+			tag = fmt.Sprintf("%v+%v", off, ln)
+		} else if ln.BitLen() <= 8 {
+			tag = fmt.Sprintf("2^%d-%v+%v", off.BitLen(), new(big.Int).Sub(new(big.Int).Lsh(big.NewInt(1), uint(off.BitLen())), off), ln)
+		}
+		add("wrap/returndatacopy-src-"+tag, cat(retData, p(ln), p(off), p(big.NewInt(0)), []byte{0x3e, 0x00}))
+		add("wrap/returndatacopy-dst-"+tag, cat(retData, p(ln), p(big.NewInt(0)), p(off), []byte{0x3e, 0x00}))
+		add("wrap/calldatacopy-src-"+tag, cat(p(ln), p(off), p(big.NewInt(0)), []byte{0x37, 0x00}))
+		add("wrap/calldatacopy-dst-"+tag, cat(p(ln), p(big.NewInt(0)), p(off), []byte{0x37, 0x00}))
+		add("wrap/codecopy-src-"+tag, cat(p(ln), p(off), p(big.NewInt(0)), []byte{0x39, 0x00}))
+		add("wrap/extcodecopy-src-"+tag, cat(p(ln), p(off), p(big.NewInt(0)), pushAddrB(bWriter), []byte{0x3c, 0x00}))
+		add("wrap/sha3-"+tag, cat(p(ln), p(off), []byte{0x20, 0x00}))
+		add("wrap/log0-"+tag, cat(p(ln), p(off), []byte{0xa0, 0x00}))
+		add("wrap/return-"+tag, cat(p(ln), p(off), []byte{0xf3}))
+		add("wrap/revert-"+tag, cat(p(ln), p(off), []byte{0xfd}))
+		add("wrap/create-"+tag, cat(p(ln), p(off), p(big.NewInt(0)), []byte{0xf0, 0x00}))
+		add("wrap/call-in-"+tag, cat(p(big.NewInt(0)), p(big.NewInt(0)), p(ln), p(off), p(big.NewInt(0)), pushAddrB(bWriter), []byte{0x5a, 0xf1, 0x00}))
+		add("wrap/call-out-"+tag, cat(p(ln), p(off), p(big.NewInt(0)), p(big.NewInt(0)), p(big.NewInt(0)), pushAddrB(bWriter), []byte{0x5a, 0xf1, 0x00}))
+		add("wrap/calldataload-"+tag, cat(p(off), []byte{0x35, 0x00}))
+	}
 	// stack limits
 	add("stack-1025", append(bytes.Repeat([]byte{0x60, 1}, 1025), 0x00))
 	add("stack-1024-dup", append(append(bytes.Repeat([]byte{0x60, 1}, 1024), 0x80), 0x00))
